@@ -61,6 +61,9 @@ CHECKS = {
  "C12": ("corpus", "exhaustive enumeration of a generated program corpus: every proxy method of a systematically enumerated trait corpus is compiled against /repo's macro and executed for every combination of boundary argument values x call forms x scripted replies",
          "154 (quick) / 462 (thorough) generated proxy methods; the frame each call form writes is compared, as JSON value and member set, with the frame the generator derives from the declaration (method path, wire names, omitted None, flags); results are mapped as the receive classification says; streams yield one item per reply. A corpus that does not compile is a violation reported by the build step.",
          "Trusted: the generator's reading of the declaration (PascalCase rule). Bounded: parameter lists of length <=2 exhaustively over 11 types, longer lists by position coverage.", "4 C12"),
+ "C16": ("corpus", "exhaustive enumeration of a generated program corpus: every derived description of a systematically enumerated set of Rust types is compiled against /repo's derive macros and compared with the generator's own model of the type",
+         "~190 (quick) / ~700 (thorough) derived structs, enums and error enums covering every supported field type, every wrapper around every leaf and every pair of wrappers, raw-identifier fields, lifetimes, doc comments; TYPE / CUSTOM_TYPE / VARIANTS compared deeply; interfaces assembled from the derived descriptions are rendered and parsed back. The C14 defect (commented enum variant) is a listed known finding here too.",
+         "Trusted: the generator's model of the mapping (written from the statement). Not asserted: Duration, paths, OsStr, network addresses, serde_json::Value; Option<Option<T>> is not generated.", "4 C16"),
 }
 
 NOT_YET = {
